@@ -46,15 +46,32 @@ def schedule_of(s):
     return "".join("%s%d" % (STEP_LETTER[st["ev"]], st["rid"]) for st in s["steps"][1:])
 
 
+def boot_of(s):
+    return s["steps"][0]["boot"]
+
+
+def unusable(boot):
+    """the keys of the start-up input the service cannot use, as "KEY:mode" ("*:specerr" = the lookup failed)"""
+    if boot["specerr"]:
+        return ["*:specerr"]
+    return sorted("%s:%s" % (k, m) for k, m in boot["keys"].items() if m != "ok")
+
+
+def complete(boot):
+    return not unusable(boot)
+
+
 def sig_of(s):
     cs = calls_of(s)
+    b = boot_of(s)
     if len(cs) == 1:
         c = cs[0]
         return {"requests": 1, "op": c["op"], "fail": c["fail"],
-                "family": "dirk" if c["kinds"][0].startswith("prot") else "wallet", "shape": shape_of(c["kinds"])}
+                "family": "dirk" if c["kinds"][0].startswith("prot") else "wallet", "shape": shape_of(c["kinds"]),
+                "unusable": unusable(b), "spe": b["spe"]}
     return {"requests": len(cs), "ops": [c["op"] for c in cs], "epochs": [c["want"]["epoch"] for c in cs],
             "kinds": [c["kinds"] for c in cs], "fails": [c["fail"] for c in cs], "fork": fork_of(s),
-            "schedule": schedule_of(s)}
+            "schedule": schedule_of(s), "unusable": unusable(b), "spe": b["spe"]}
 
 
 def spans_fork(s):
@@ -130,6 +147,38 @@ def single_histories(tier, rnd):
     return out
 
 
+def phase0_broken(boot):
+    """New() of the pinned code refuses such an input: a phase0 key or SLOTS_PER_EPOCH is not usable"""
+    later = ("DOMAIN_SYNC_COMMITTEE", "DOMAIN_SYNC_COMMITTEE_SELECTION_PROOF", "DOMAIN_CONTRIBUTION_AND_PROOF",
+             "DOMAIN_APPLICATION_BUILDER", "DOMAIN_BLOB_SIDECAR")
+    return boot["specerr"] or any(m != "ok" for k, m in boot["keys"].items() if k not in later)
+
+
+N_BOOT_THOROUGH = 6000
+
+
+def boot_histories(tier, rnd):
+    """START-UP family, histories of length one: every start-up input of the configuration (quick: the complete
+    map on a 32- and an 8-slot chain, every single key absent / of another Go type - also the phase0 ones and
+    SLOTS_PER_EPOCH -, the maps of nodes of earlier forks, the failed lookup; thorough: every assignment of
+    listed / absent / other Go type to the five later keys as well, on both chains) x every operation the signer
+    offers on one account of each kind (and the registration that carries nothing to sign).  Start-up inputs the
+    pinned New() refuses are run with the wallet account only (quick); thorough: a seeded sample of the whole."""
+    cfg = "Scen_Signer_boot.cfg" if tier == "quick" else "Scen_Signer_boot_big.cfg"
+    hs = vf.tlc_scenarios(PID, "Scen_Signer", cfg, exhaustive=True, timeout=1500, heap="6g", name="scen-boot")
+    if tier == "quick":
+        sel = [h for h in hs if not phase0_broken(h[0]["boot"]) or h[1]["kinds"] == ["plain"]]
+    else:
+        rnd.shuffle(hs)
+        sel = hs[:N_BOOT_THOROUGH]
+    out = []
+    for h in sel:
+        e = h[1]["want"]["epoch"]
+        fork = rnd.choice([e, e + 1]) if e >= 0 else rnd.choice([0, 4])
+        out.append([dict(h[0], fork=fork)] + h[1:])
+    return out
+
+
 N_SIGN_QUICK = 700
 
 
@@ -141,6 +190,7 @@ def overlap_histories(tier, rnd):
     which has its own split code, each operation on both sides of the fork); quick: a seeded sample of them);
     plus TLC-simulated histories over all operations, account kinds, batches, failure modes and gate modes"""
     n_rich, n_fail = (160, 60) if tier == "quick" else (2000, 700)
+    n_boot = 80 if tier == "quick" else 1000
     with concurrent.futures.ThreadPoolExecutor(max_workers=4) as pool:
         core = pool.submit(vf.tlc_scenarios, PID, "Scen_SignerHist", "Scen_SignerHist.cfg", exhaustive=True,
                            name="scen-hist")
@@ -151,28 +201,33 @@ def overlap_histories(tier, rnd):
                            depth=100, name="scen-hist-rich", timeout=900)
         fail = pool.submit(vf.tlc_scenarios, PID, "Scen_SignerHist", "Scen_SignerHist_fail.cfg", num=n_fail,
                            depth=100, name="scen-hist-fail", timeout=900)
+        # three requests on ONE instance started with an incomplete / differently typed spec map (both chains)
+        boot = pool.submit(vf.tlc_scenarios, PID, "Scen_SignerHist", "Scen_SignerHist_boot.cfg", num=n_boot,
+                           depth=100, name="scen-hist-boot", timeout=900)
         signs = sign.result()
         if tier == "quick":
             rnd.shuffle(signs)
             signs = signs[:N_SIGN_QUICK]
-        return core.result(), signs, rich.result()[:n_rich] + fail.result()[:n_fail]
+        return core.result(), signs, rich.result()[:n_rich] + fail.result()[:n_fail] + boot.result()[:n_boot]
 
 
 def model_checks(tier):
     """(exhaustive runs that must pass, self-check that must fail)"""
     runs = [("MC_Signer", "MC_Signer.cfg", 900), ("MC_Signer", "MC_Signer_hist.cfg", 900),
-            ("MC_Signer", "MC_Signer_sign.cfg", 900),
-            ("SignerCache", "MC_SignerCache_checked.cfg", 900), ("SignerPool", "MC_SignerPool_late.cfg", 900)]
+            ("MC_Signer", "MC_Signer_sign.cfg", 900), ("MC_Signer", "MC_Signer_boot.cfg", 900),
+            ("SignerCache", "MC_SignerCache_checked.cfg", 900), ("SignerPool", "MC_SignerPool_late.cfg", 900),
+            ("SignerBoot", "MC_SignerBoot_pinned.cfg", 900), ("SignerBoot", "MC_SignerBoot_right.cfg", 900)]
     if tier == "thorough":
         # the long one first: it is the critical path of the thorough tier
         runs = [("MC_Signer", "MC_Signer_big.cfg", 1800), ("MC_Signer", "MC_Signer_hist_big.cfg", 1800),
-                ("MC_Signer", "MC_Signer_sign_big.cfg", 1800)] + runs
+                ("MC_Signer", "MC_Signer_sign_big.cfg", 1800), ("MC_Signer", "MC_Signer_boot_big.cfg", 1800)] + runs
     return runs
 
 
 def run_mc(module, cfg, timeout):
     big = cfg == "MC_Signer_big.cfg"
-    return vf.tlc_exhaustive(PID, module, cfg, timeout=timeout, workers=8 if big else 4, coverage=big)
+    small = module == "SignerBoot"
+    return vf.tlc_exhaustive(PID, module, cfg, timeout=timeout, workers=8 if big else 1 if small else 4, coverage=big)
 
 
 def must_violate(module, cfg, allowed, what):
@@ -183,7 +238,7 @@ def must_violate(module, cfg, allowed, what):
     vf.log("model self-check: %s violates %s (as it must)" % (what, r["violated"]))
 
 
-def run_selfcheck():
+def run_selfcheck_hist():
     # the model must be able to SEE the classes:
     # the per-epoch cache whose store does not re-check the epoch (seeded/C06-domain-cache-straddles-fork)
     must_violate("SignerCache", "MC_SignerCache_unchecked.cfg", ("Memoryless", "SigCorrect"),
@@ -198,6 +253,24 @@ def run_selfcheck():
     # and the passing control model (MC_SignerPool_late.cfg) is not empty: two requests do complete there
     must_violate("SignerPool", "MC_SignerPool_late_reach.cfg", ("NeverTwoDone",),
                  "(reachability witness) the pool with the right lifetime completing two requests")
+
+
+def run_selfcheck_boot():
+    # START-UP: a built-in default for a key the node's spec map does not list, right for every complete map
+    # (seeded/C06-builder-domain-default-wrong-bytes: the builder type "like every consensus domain type")
+    must_violate("SignerBoot", "MC_SignerBoot_pattern.cfg", ("DomainRight", "Memoryless"),
+                 "a default of 0x01000000 for DOMAIN_APPLICATION_BUILDER when the node does not list it")
+    must_violate("SignerBoot", "MC_SignerBoot_pattern_sig.cfg", ("SigCorrect",),
+                 "a default of 0x01000000 for DOMAIN_APPLICATION_BUILDER when the node does not list it")
+    # ... Go's zero value left on the service for a phase0 key that is not usable, New() starting all the same
+    must_violate("SignerBoot", "MC_SignerBoot_zero.cfg", ("DomainRight", "Memoryless"),
+                 "the zero domain type kept for a phase0 key the node's spec map does not give")
+    # ... the sync committee selection proof falling back to the phase0 selection proof type
+    must_violate("SignerBoot", "MC_SignerBoot_reuse.cfg", ("DomainRight", "Memoryless"),
+                 "DOMAIN_SELECTION_PROOF used when DOMAIN_SYNC_COMMITTEE_SELECTION_PROOF is not listed")
+    # and the passing control model with the RIGHT default is not empty: it does sign without the key
+    must_violate("SignerBoot", "MC_SignerBoot_right_reach.cfg", ("NeverSignsWithoutKey",),
+                 "(reachability witness) the right built-in default signing a registration the node gave no type for")
 
 
 def run(tier):
@@ -222,25 +295,34 @@ def run(tier):
         "arguments on arrival and again when the call is let return, and sign what they see then)",
         "the driver runs with GOMAXPROCS(1): a sync.Pool then hands an object put back by one request to the request "
         "that asks next (per-P caches), so state carried through a pool shows deterministically",
+        "start-up: the spec map handed to New() is the environment's choice per instance - every key the signer can "
+        "use (SLOTS_PER_EPOCH and the ten domain types) listed / absent / listed with another Go type, the lookup "
+        "failing, the chain having 32 or 8 slots per epoch; Env_NodeValuesRight: a key a node lists with the right Go "
+        "type carries the specifications' value (the values come from Signer.tla's table DomainTypeBytes, as do the "
+        "domain types of the oracle; the driver has no table of its own); a nil response with a nil error from the "
+        "spec provider is not in the alphabet (go-eth2-client never returns one)",
     ]
-    with concurrent.futures.ThreadPoolExecutor(max_workers=3) as pool, \
+    with concurrent.futures.ThreadPoolExecutor(max_workers=4) as pool, \
             concurrent.futures.ThreadPoolExecutor(max_workers=1) as pool2:
         # the model-checking runs go on beside scenario generation and the driver
         fut_hist = pool2.submit(overlap_histories, tier, random.Random(vf.seed() + 1))
         futs = [pool.submit(run_mc, m, c, t) for m, c, t in model_checks(tier)]
-        futs_self = pool.submit(run_selfcheck)
+        futs_self = [pool.submit(run_selfcheck_hist), pool.submit(run_selfcheck_boot)]
         try:
             singles = single_histories(tier, rnd)
+            boots = boot_histories(tier, rnd)
             core, signs, rich = fut_hist.result()
-            sc = [{"sc": i + 1, "steps": h} for i, h in enumerate(singles + core + signs + rich)]
-            vf.log("%d histories: %d of one request, %d exhaustive three-request schedules around the domain lookup, "
+            sc = [{"sc": i + 1, "steps": h} for i, h in enumerate(singles + boots + core + signs + rich)]
+            vf.log("%d histories: %d of one request, %d of one request over the start-up inputs, %d exhaustive "
+                   "three-request schedules around the domain lookup, "
                    "%d two-request schedules inside the signing phase, %d simulated" % (
-                       len(sc), len(singles), len(core), len(signs), len(rich)))
+                       len(sc), len(singles), len(boots), len(core), len(signs), len(rich)))
             vf.conformance(v, sc, driver, "Trace_Signer", "Trace_Signer.cfg", sig_of, nontrivial, chunk=1500,
                            tlc_timeout=1500)
         finally:
             done = [f.result() for f in futs]
-            futs_self.result()
+            for f in futs_self:
+                f.result()
     for r in done:
         v.add_mc(r)
     v.coverage["rule"] = ("histories executed on the real signer: (a) every request of Signer.tla's Calls (operation x "
@@ -253,7 +335,15 @@ def run(tier):
                           "it} (thorough: {attestations, slot_selection, sync_root} x both sides of the fork) x every "
                           "batch of length <= 2 of each account family, held inside the signer calls (quick: a seeded "
                           "sample of %d of the 3312; thorough: all 29808); (d) TLC-simulated three-request histories over "
-                          "all operations, kinds, batches, failure modes, gate modes.  Non-trivial = signatures were "
+                          "all operations, kinds, batches, failure modes, gate modes; (e) START-UP: every start-up input of "
+                          "Scen_Signer_boot*.cfg (spec map handed to New(): complete on a 32- and an 8-slot chain, every "
+                          "single key absent / of another Go type, the maps of nodes of earlier forks, the failed lookup; "
+                          "thorough: every assignment of the three modes to the five later keys on both chains, seeded "
+                          "sample of 6000) x every operation the signer offers (incl. validator registration and blob "
+                          "sidecar) on one account of each kind, plus simulated three-request histories on instances "
+                          "started with such inputs: per request either an error without signature (allowed only when the "
+                          "input lacks what the operation needs) or signatures that verify under the domain type of "
+                          "Signer.tla's table DomainTypeBytes.  Non-trivial = signatures were "
                           "returned and BLS-verified and: one request - for batches both groups of the split are "
                           "populated; several requests - the history has requests on both sides of the fork or two "
                           "requests overlapped in the signing phase; distinct by history" % N_SIGN_QUICK)
